@@ -926,7 +926,7 @@ public:
             unsafe_set_size(count);
         }
         if (size() < count) {
-            append(count, ch);
+            append(count - size(), ch);
         }
     }
 
